@@ -46,6 +46,8 @@ def out_to_array(x):
 
 class Refusal:
     """A streaming step raised ValueError: the application keeps its previous attitude."""
+    etype = 'ValueError'
+
     def __init__(self, msg):
         self.msg = msg
 
@@ -106,6 +108,11 @@ class StreamTask:
             if r is not None and self.kind.recursive:
                 self.q = r
             log.add('step', self.idx, k, r if r is not None else 'None')
+        except np.linalg.LinAlgError as e:
+            self.out[k] = Crash(e)
+            if self.kind.recursive:
+                self.dead = True
+            log.add('crash', self.idx, k, type(e).__name__)
         except ValueError as e:
             self.out[k] = Refusal(str(e)[:200])
             log.add('refuse', self.idx, k, type(e).__name__)
@@ -160,6 +167,8 @@ def run_batch(kind, p, dt, dip, gyr, acc, mag):
     try:
         o, Q = kind.batch(p, dt, dip, gyr if 'g' in s else None, acc if 'a' in s else None, mag if 'm' in s else None)
         return np.array(Q, copy=True), o
+    except np.linalg.LinAlgError as e:
+        return Crash(e), None
     except ValueError as e:
         return Refusal(str(e)[:200]), None
     except Exception as e:              # noqa: BLE001
